@@ -308,10 +308,30 @@ impl ObjectiveFunction for BinP {
 
 // ---- permutation / TSP ----------------------------------------------------------------------
 
+/// Vectors of floats in replay files: JSON has no infinities, they are written as strings.
+mod float_vec {
+    use serde::{Deserialize, Deserializer, Serialize, Serializer};
+    #[derive(Serialize, Deserialize)]
+    #[serde(untagged)]
+    enum F {
+        N(f64),
+        S(String),
+    }
+    pub fn serialize<S: Serializer>(v: &[f64], s: S) -> Result<S::Ok, S::Error> {
+        let w: Vec<F> = v.iter().map(|x| if x.is_finite() { F::N(*x) } else { F::S(format!("{x}")) }).collect();
+        w.serialize(s)
+    }
+    pub fn deserialize<'de, D: Deserializer<'de>>(d: D) -> Result<Vec<f64>, D::Error> {
+        let w: Vec<F> = Vec::deserialize(d)?;
+        w.into_iter().map(|f| match f { F::N(x) => Ok(x), F::S(s) => s.parse::<f64>().map_err(serde::de::Error::custom) }).collect()
+    }
+}
+
 #[derive(Clone, Debug, Serialize, Deserialize, PartialEq)]
 pub struct TspSpec {
     pub dim: usize,
     /// symmetric distance matrix, row-major, zero diagonal
+    #[serde(with = "float_vec")]
     pub dist: Vec<f64>,
     pub penalty: Option<u64>,
     pub name: String,
@@ -461,6 +481,18 @@ pub fn gen_tsp(g: &mut Gen, penalty: bool, min_dim: usize, max_dim: usize, extre
             dist[a * dim + b] = d;
             // some instances are asymmetric (a legal travelling-salesperson problem)
             dist[b * dim + a] = if asym && g.chance(0.4) { d * g.f64_in(0.3, 3.0) } else { d };
+        }
+    }
+    // sparse maps: a missing road is an infinite distance (tours over it are infeasible, their
+    // length is +inf); only where the caller asked for extreme instances
+    if extreme && dim >= 3 && g.chance(0.15) {
+        let missing = 1 + g.below(dim);
+        for _ in 0..missing {
+            let (a, b) = (g.below(dim), g.below(dim));
+            if a != b {
+                dist[a * dim + b] = f64::INFINITY;
+                dist[b * dim + a] = f64::INFINITY;
+            }
         }
     }
     TspSpec { dim, dist, penalty: if penalty { Some(g.u64()) } else { None }, name: format!("tsp{}", g.below(1000)) }
